@@ -21,7 +21,7 @@ RULE = ("agent parameter grids x market states (price histories built by real tr
 WIT = ["fcn_buy", "fcn_sell", "fcn_nothing", "fcn_inaccessible", "fcn_clock_below_window", "fcn_mean_reversion_distinct",
        "share_choice_0", "share_choice_1", "share_zero_volume", "mm_quotes", "mm_base_from_market_price", "mm_inaccessible_market_ignored",
        "mm_market_order_on_top", "arb_no_action_within_threshold", "arb_gap_exactly_threshold", "arb_buy_index", "arb_sell_index",
-       "arb_not_running", "arb_two_indices_acted", "arb_component_moved_between_consultations", "test_agent_cases", "fcn_normal_margin_cases", "fcn_on_index_market", "group_member_setups", "well_formed_orders"]
+       "arb_not_running", "arb_two_indices_acted", "arb_component_moved_between_consultations", "test_agent_cases", "fcn_normal_margin_cases", "fcn_on_index_market", "fcn_two_markets_different_clocks", "group_member_setups", "well_formed_orders"]
 
 
 class Sim:
@@ -199,6 +199,28 @@ def fcn_fn(case, wit):
                     fund * scale, hist, fund, wf, wc, wn, ns, g, win, mr, k)
                 check_fcn_orders(orders, mi, p, r, ph, k, win, 0, wit, tag)
                 wit.inc("fcn_on_index_market")
+    # one consultation about two markets whose clocks differ (worlds built through the market API): each order follows its own
+    # market's history
+    if len(hist) >= 2:
+        m2 = mk_hist_market(1, hist[:1], fund)
+        for (wf, wc, wn) in ((0, 1, 0), (1, 3, 0), (1, 1, 1)):
+            for ns, g, win, mr, k in ((0, 0.0, 1, None, 0), (2.0 ** -7, 2.0, 2, None, 0.125), (2.0 ** -7, -2.0, 5, 4, 0.5)):
+                for first in (0, 1):
+                    a = FCNAgent(3, StubRandom(g=g), Sim(), "a")
+                    st = {"cashAmount": 100, "assetVolume": 1, "fundamentalWeight": wf, "chartWeight": wc, "noiseWeight": wn,
+                          "noiseScale": ns, "timeWindowSize": win, "orderMargin": k}
+                    if mr:
+                        st["meanReversionTime"] = mr
+                    a.setup(st, [0, 1])
+                    orders = a.submit_orders([m, m2] if first == 0 else [m2, m])
+                    for o in orders:
+                        well_formed(o, a, wit)
+                    for mk_, mid in ((m, 0), (m2, 1)):
+                        p, r, ph = fcn_reference(mk_, fund, wf, wc, wn, ns, g, win, mr)
+                        tag = "two markets with clocks %d and %d shown together (%s first), market %d: history %s fundamental %s weights (%s,%s,%s) noise %s x %s window %s mean-reversion %s margin %s" % (
+                            m.get_time(), m2.get_time(), "longer" if first == 0 else "shorter", mid, hist, fund, wf, wc, wn, ns, g, win, mr, k)
+                        check_fcn_orders([o for o in orders if o.market_id == mid], mk_, p, r, ph, k, win, mid, wit, tag)
+                    wit.inc("fcn_two_markets_different_clocks")
     # not accessible: nothing
     a = FCNAgent(3, StubRandom(g=1.0), Sim(), "a")
     a.setup({"cashAmount": 100, "assetVolume": 1, "fundamentalWeight": 1, "chartWeight": 1, "noiseWeight": 1, "noiseScale": 0.01,
